@@ -428,7 +428,7 @@ def extra_cov(cases, outs):
 
 def main(run, args):
     import checklib
-    n = 2500 if run.tier == "quick" else 60000
+    n = 2500 if run.tier == "quick" else 30000
     if args.cases:
         n = args.cases
     return checklib.standard(run, ID, THEOREMS, IMPORTS, "diag", gen_cases, to_coq, n, nontrivial=nontrivial,
